@@ -183,7 +183,7 @@ class C04(E2EProp):
     id = "C04"
     cone = ["Properties/C04.vo"]
     prop_file = "Properties/C04.v"
-    theorems = ["C04_escape_decodable", "C04_escape_injective", "C04_specials_only_in_escape_forms", "C04_escape_is_rune_by_rune", "C04_escape_compositional", "C04_escaped_text_is_brace_neutral", "C04_url_is_brace_neutral", "C04_headers_balanced_partial", "C04_inline_titles_balanced", "C04_url_table_is_the_source", "C04_tex_guards_are_the_source"]
+    theorems = ["C04_escape_decodable", "C04_escape_injective", "C04_specials_only_in_escape_forms", "C04_escape_is_rune_by_rune", "C04_escape_compositional", "C04_escaped_text_is_brace_neutral", "C04_url_is_brace_neutral", "C04_headers_balanced_partial", "C04_inline_titles_balanced", "C04_url_table_is_the_source", "C04_tex_guards_are_the_source", "C04_model_rendered_text_decodes"]
     partial = ["C04 balance half is proved for the sub-language of Proofs/FragHL.v (text, Bm/Em/Sm, P with title, D, Lk with any url, Bd/Ed at any depth, headers, Tc; fragment mode) against the brace machine of Proofs/TokL.v, which does not read environments; lists, tables, verse, images, user macros and the standalone preamble are tied by S-e2e bytes and searched by the TeX balance oracle"]
     oracle = staticmethod(oracles.c04_oracle)
     assumptions = ["escape.LaTeX = strings.Replacer over latexEscapes = Repl.enc latex_table (translator checks the shape of escape.go; stream S-esc-latex)",
@@ -275,7 +275,7 @@ class C03(E2EProp):
     id = "C03"
     cone = ["Properties/C03.vo"]
     prop_file = "Properties/C03.v"
-    theorems = ["C03_escape_decodable", "C03_markup_characters_escaped", "C03_typography_only_inserts_fr", "C03_typography_only_inserts_en"]
+    theorems = ["C03_escape_decodable", "C03_markup_characters_escaped", "C03_typography_only_inserts_fr", "C03_typography_only_inserts_en", "C03_model_rendered_text_decodes"]
     partial = ["C03_no_raw / C03_once_in_order on whole documents (every text-bearing position is rendered through the escaper, once, in order): tied by the S-e2e position sweep, searched by the text oracle; proof pending"]
     assumptions = ["html.EscapeString = Repl.enc html_table, the table probed from the toolchain over every code point (S-esc-html)", "XHTML exporter = Model/Xhtml.v (S-e2e position sweep)"]
     SPECIALS = ["<", ">", "&", "\"", "'", "\\e", "é", "\U0001F600", "\xa0"]
